@@ -81,11 +81,10 @@ func TestVerifC04Reductions(t *testing.T) {
 		lib.CountN("evaluations", n)
 	})
 	lib.DistinctS("le2qModQ", "all of [0,2q)")
-	// ReduceLe2Q and modQ: all 2^32 inputs
+	// ReduceLe2Q and modQ.  thorough: all 2^32 inputs.  quick: [0,2^28), the top 2^27,
+	// and +-2^10 around every multiple of 2^23 (where x>>23 changes).
 	const chunks = 1024
-	lib.Par(chunks, func(c int) {
-		lo := uint64(c) << 22
-		hi := lo + 1<<22
+	check := func(lo, hi uint64) {
 		bad := 0
 		for x64 := lo; x64 < hi; x64++ {
 			x := uint32(x64)
@@ -105,12 +104,27 @@ func TestVerifC04Reductions(t *testing.T) {
 				bad++
 			}
 		}
-		lib.CountN("ReduceLe2Q:checked", 1<<22)
-		lib.CountN("modQ:checked", 1<<22)
-		lib.CountN("evaluations", 2<<22)
+		lib.CountN("ReduceLe2Q:checked", int(hi-lo))
+		lib.CountN("modQ:checked", int(hi-lo))
+		lib.CountN("evaluations", int(2*(hi-lo)))
+	}
+	lib.Par(chunks, func(c int) {
+		lo := uint64(c) << 22
+		if lib.Thorough() || lo < 1<<28 || lo >= 1<<32-1<<27 {
+			check(lo, lo+1<<22)
+			return
+		}
+		if c%2 == 0 { // chunk starts at a multiple of 2^23
+			check(lo-1<<10, lo+1<<10)
+		}
 	})
-	lib.DistinctS("ReduceLe2Q", "all of [0,2^32)")
-	lib.DistinctS("modQ", "all of [0,2^32)")
+	if lib.Thorough() {
+		lib.DistinctS("ReduceLe2Q", "all of [0,2^32)")
+		lib.DistinctS("modQ", "all of [0,2^32)")
+	} else {
+		lib.DistinctS("ReduceLe2Q", "[0,2^28), top 2^27, around multiples of 2^23")
+		lib.DistinctS("modQ", "[0,2^28), top 2^27, around multiples of 2^23")
+	}
 
 	// montReduceLe2Q on x <= q*2^32: y < 2q and y*2^32 = x (mod q)
 	total := lib.Scale(1<<24, 1<<30)
